@@ -557,3 +557,316 @@ VARIANTS += [
  dict(name='mandatory-loop-breaks', file=P, expect='flagged(parser/mandatory)',
       find='\t\tif attrKeyValue[field] == "" {\n', replace='\t\tif field == "O" {\n\t\t\tbreak\n\t\t}\n\t\tif attrKeyValue[field] == "" {\n'),
 ]
+
+# ---- third pass: the mandatory attribute types, by class. Where the list of constants is written down (local literal,
+# ---- package-level array / slice, a function that returns it, what a caller passes), how it is walked (range, index loop,
+# ---- one test per type) and at which call boundary the test sits (inline, helper returning error / (field, ok)).
+_DOC = '// ParseDistinguishedName parses a DN name and validates Notary Project rules\n'
+_MAND = '''	mandatoryFields := []string{"C", "ST", "O"}
+	for _, field := range mandatoryFields {
+		if attrKeyValue[field] == "" {
+			return nil, fmt.Errorf("distinguished name (DN) %q has no mandatory RDN attribute for %q, it must contain 'C', 'ST' or 'S', and 'O' RDN attributes at a minimum", name, field)
+		}
+	}
+'''
+_MANDERR = '''fmt.Errorf("distinguished name (DN) %q has no mandatory RDN attribute for %q, it must contain 'C', 'ST' or 'S', and 'O' RDN attributes at a minimum", name, field)'''
+_MAND_GLOBAL = _sub(_sub(_MAND, '\tmandatoryFields := []string{"C", "ST", "O"}\n', ''), 'range mandatoryFields {', 'range mandatoryRDNAttributes {')
+
+def _global(decl, extra=''):
+    return [(P, _DOC, decl + '\n' + extra + '\n' + _DOC), (P, _MAND, _MAND_GLOBAL)]
+
+_UNROLLED = '''	if attrKeyValue["C"] == "" {
+		return nil, ''' + _MANDERR.replace('name, field)', 'name, "C")') + '''
+	}
+	if attrKeyValue["ST"] == "" {
+		return nil, ''' + _MANDERR.replace('name, field)', 'name, "ST")') + '''
+	}
+	if attrKeyValue["O"] == "" {
+		return nil, ''' + _MANDERR.replace('name, field)', 'name, "O")') + '''
+	}
+'''
+_HELPER_CALL = '''	if err := requireMandatoryRDNs(name, attrKeyValue); err != nil {
+		return nil, err
+	}
+'''
+_HELPER_FN = '''// requireMandatoryRDNs fails when one of the mandatory attribute types has no value.
+func requireMandatoryRDNs(name string, attrs map[string]string) error {
+	for _, field := range []string{"C", "ST", "O"} {
+		if attrs[field] == "" {
+			return ''' + _MANDERR + '''
+		}
+	}
+	return nil
+}
+
+'''
+_TUPLE_CALL = '''	if field, ok := firstMissingRDN(attrKeyValue, "C", "ST", "O"); !ok {
+		return nil, ''' + _MANDERR + '''
+	}
+'''
+_TUPLE_FN = '''// firstMissingRDN returns the first of the attribute types that has no value.
+func firstMissingRDN(attrs map[string]string, attrTypes ...string) (string, bool) {
+	for _, t := range attrTypes {
+		if attrs[t] == "" {
+			return t, false
+		}
+	}
+	return "", true
+}
+
+'''
+_LISTFN = '''// mandatoryRDNAttributes lists the attribute types every DN must carry.
+func mandatoryRDNAttributes() []string {
+	return []string{"C", "ST", "O"}
+}
+
+'''
+_INDEXLOOP = _sub(_MAND, '\tfor _, field := range mandatoryFields {\n', '\tfor i := 0; i < len(mandatoryFields); i++ {\n\t\tfield := mandatoryFields[i]\n')
+
+VARIANTS += [
+ # -- list hoisted to a package-level array / slice
+ dict(name='benign-mandatory-package-array', expect='silent', edits=_global('var mandatoryRDNAttributes = [...]string{"C", "ST", "O"}')),
+ dict(name='package-array-O-dropped', expect='flagged(parser/mandatory)', edits=_global('var mandatoryRDNAttributes = [...]string{"C", "ST"}')),
+ dict(name='package-array-element-overwritten', expect='flagged(parser/mandatory)',
+      edits=_global('var mandatoryRDNAttributes = [...]string{"C", "ST", "O"}', '\nfunc init() {\n\tmandatoryRDNAttributes[2] = "C"\n}\n')),
+ dict(name='package-array-reassigned-by-setter', expect='flagged(parser/mandatory)',
+      edits=_global('var mandatoryRDNAttributes = [...]string{"C", "ST", "O"}', '\n// Relax drops the mandatory attribute types.\nfunc Relax() {\n\tmandatoryRDNAttributes = [3]string{"C", "C", "C"}\n}\n')),
+ dict(name='benign-mandatory-package-slice', expect='silent', edits=_global('var mandatoryRDNAttributes = []string{"C", "ST", "O"}')),
+ dict(name='package-slice-truncated-in-init', expect='flagged(parser/mandatory)',
+      edits=_global('var mandatoryRDNAttributes = []string{"C", "ST", "O"}', '\nfunc init() {\n\tmandatoryRDNAttributes = mandatoryRDNAttributes[:2]\n}\n')),
+ dict(name='package-slice-element-overwritten', expect='flagged(parser/mandatory)',
+      edits=_global('var mandatoryRDNAttributes = []string{"C", "ST", "O"}', '\n// Relax drops a mandatory attribute type.\nfunc Relax() {\n\tmandatoryRDNAttributes[1] = "C"\n}\n')),
+ dict(name='benign-mandatory-package-array-exported-internal', expect='silent',
+      edits=[(P, _DOC, '// MandatoryRDNAttributes lists the attribute types every DN must carry.\nvar MandatoryRDNAttributes = [...]string{"C", "ST", "O"}\n\n' + _DOC),
+             (P, _MAND, _sub(_MAND_GLOBAL, 'mandatoryRDNAttributes', 'MandatoryRDNAttributes'))]),
+ # -- list returned by a function
+ dict(name='benign-mandatory-list-function', expect='silent',
+      edits=[(P, _DOC, _LISTFN + _DOC), (P, _MAND, _sub(_MAND_GLOBAL, 'range mandatoryRDNAttributes {', 'range mandatoryRDNAttributes() {'))]),
+ dict(name='list-function-O-dropped', expect='flagged(parser/mandatory)',
+      edits=[(P, _DOC, _sub(_LISTFN, '"C", "ST", "O"', '"C", "ST"') + _DOC), (P, _MAND, _sub(_MAND_GLOBAL, 'range mandatoryRDNAttributes {', 'range mandatoryRDNAttributes() {'))]),
+ # -- index loop over the list
+ dict(name='benign-mandatory-index-loop', file=P, expect='silent', find=_MAND, replace=_INDEXLOOP),
+ dict(name='index-loop-skips-first', file=P, expect='flagged(parser/mandatory)', find=_MAND, replace=_sub(_INDEXLOOP, 'i := 0;', 'i := 1;')),
+ dict(name='index-loop-step-two', file=P, expect='flagged(parser/mandatory)', find=_MAND, replace=_sub(_INDEXLOOP, 'i++ {', 'i += 2 {')),
+ # -- one test per type instead of a loop
+ dict(name='benign-mandatory-unrolled', file=P, expect='silent', find=_MAND, replace=_UNROLLED),
+ dict(name='unrolled-O-test-missing', file=P, expect='flagged(parser/mandatory)', find=_MAND,
+      replace=_UNROLLED[:_UNROLLED.index('\tif attrKeyValue["O"]')]),
+ dict(name='unrolled-tests-S-not-ST', file=P, expect='flagged(parser/mandatory)', find=_MAND,
+      replace=_sub(_UNROLLED, 'if attrKeyValue["ST"] == "" {', 'if attrKeyValue["S"] == "" {')),
+ dict(name='unrolled-conjunction', file=P, expect='flagged(parser/mandatory)', find=_MAND,
+      replace='\tif attrKeyValue["C"] == "" && attrKeyValue["ST"] == "" && attrKeyValue["O"] == "" {\n\t\treturn nil, ' + _MANDERR.replace('name, field)', 'name, "C")') + '\n\t}\n'),
+ dict(name='benign-mandatory-unrolled-disjunction', file=P, expect='silent', find=_MAND,
+      replace='\tif attrKeyValue["C"] == "" || attrKeyValue["ST"] == "" || attrKeyValue["O"] == "" {\n\t\treturn nil, ' + _MANDERR.replace('name, field)', 'name, "C")') + '\n\t}\n'),
+ dict(name='mandatory-value-deleted-after-test', file=P, expect='flagged(parser/mandatory)', find=_MAND,
+      replace=_MAND + '\tdelete(attrKeyValue, "O")\n'),
+ # -- the test extracted into a helper
+ dict(name='benign-mandatory-helper-error', expect='silent', edits=[(P, _DOC, _HELPER_FN + _DOC), (P, _MAND, _HELPER_CALL)]),
+ dict(name='mandatory-helper-error-ignored', expect='flagged(parser/mandatory)',
+      edits=[(P, _DOC, _HELPER_FN + _DOC), (P, _MAND, '\t_ = requireMandatoryRDNs(name, attrKeyValue)\n')]),
+ dict(name='mandatory-helper-ST-dropped', expect='flagged(parser/mandatory)',
+      edits=[(P, _DOC, _sub(_HELPER_FN, '"C", "ST", "O"', '"C", "O"') + _DOC), (P, _MAND, _HELPER_CALL)]),
+ dict(name='mandatory-helper-early-nil', expect='flagged(parser/mandatory)',
+      edits=[(P, _DOC, _sub(_HELPER_FN, ') error {\n', ') error {\n\tif len(attrs) > 3 {\n\t\treturn nil\n\t}\n') + _DOC), (P, _MAND, _HELPER_CALL)]),
+ dict(name='mandatory-helper-on-other-map', expect='flagged(parser/mandatory)',
+      edits=[(P, _DOC, _HELPER_FN + _DOC), (P, _MAND, _sub(_HELPER_CALL, 'requireMandatoryRDNs(name, attrKeyValue)', 'requireMandatoryRDNs(name, map[string]string{"C": "x", "ST": "x", "O": "x"})'))]),
+ dict(name='benign-mandatory-helper-package-array', expect='silent',
+      edits=[(P, _DOC, 'var mandatoryRDNAttributes = [...]string{"C", "ST", "O"}\n\n' + _sub(_HELPER_FN, 'range []string{"C", "ST", "O"} {', 'range mandatoryRDNAttributes {') + _DOC), (P, _MAND, _HELPER_CALL)]),
+ # -- helper that is handed the list and answers (field, ok)
+ dict(name='benign-mandatory-helper-varargs-tuple', expect='silent', edits=[(P, _DOC, _TUPLE_FN + _DOC), (P, _MAND, _TUPLE_CALL)]),
+ dict(name='varargs-tuple-O-not-passed', expect='flagged(parser/mandatory)',
+      edits=[(P, _DOC, _TUPLE_FN + _DOC), (P, _MAND, _sub(_TUPLE_CALL, '"C", "ST", "O"', '"C", "ST"'))]),
+ dict(name='varargs-tuple-answer-inverted', expect='flagged(parser/mandatory)',
+      edits=[(P, _DOC, _sub(_TUPLE_FN, 'return t, false', 'return t, true') + _DOC), (P, _MAND, _TUPLE_CALL)]),
+ dict(name='varargs-tuple-ok-not-tested', expect='flagged(parser/mandatory)',
+      edits=[(P, _DOC, _TUPLE_FN + _DOC), (P, _MAND, _sub(_TUPLE_CALL, '; !ok {', '; !ok && field == "CN" {'))]),
+ dict(name='benign-mandatory-helper-slice-of-package-array', expect='silent',
+      edits=[(P, _DOC, 'var mandatoryRDNAttributes = [...]string{"C", "ST", "O"}\n\n' + _TUPLE_FN + _DOC), (P, _MAND, _sub(_TUPLE_CALL, '"C", "ST", "O")', 'mandatoryRDNAttributes[:]...)'))]),
+]
+
+# ---- third pass: the attribute part of the parser cut into helpers at different boundaries (alias function, collector that
+# ---- makes and returns the map, helper per RDN, helper per attribute handed the attribute or its two strings)
+_DUPERR = 'fmt.Errorf("distinguished name (DN) %q has duplicate RDN attribute for %q, DN can only have unique RDN attributes", name, attribute.Type)'
+_MULTIERR = 'fmt.Errorf("distinguished name (DN) %q has multi-valued RDN attributes, remove multi-valued RDN attributes as they are not supported", name)'
+_ATTRBODY = '''			// stateOrProvince name 'S' is an alias for 'ST'
+			if attribute.Type == "S" {
+				attribute.Type = "ST"
+			}
+			if attrKeyValue[attribute.Type] == "" {
+				attrKeyValue[attribute.Type] = attribute.Value
+			} else {
+				return nil, ''' + _DUPERR + '''
+			}
+'''
+_RDNLOOP = '''	for _, rdn := range dn.RDNs {
+		// multi-valued RDNs are not supported (TODO: add spec reference here)
+		if len(rdn.Attributes) > 1 {
+			return nil, ''' + _MULTIERR + '''
+		}
+		for _, attribute := range rdn.Attributes {
+''' + _ATTRBODY + '''		}
+	}
+'''
+# alias function
+_CANON_BODY = '''			attrType := canonicalAttributeType(attribute.Type)
+			if attrKeyValue[attrType] != "" {
+				return nil, ''' + _DUPERR.replace('attribute.Type)', 'attrType)') + '''
+			}
+			attrKeyValue[attrType] = attribute.Value
+'''
+_CANON_FN = '''// canonicalAttributeType maps the alias S of stateOrProvince to ST.
+func canonicalAttributeType(attrType string) string {
+	if attrType == "S" {
+		return "ST"
+	}
+	return attrType
+}
+
+'''
+_CANON_FN_SWITCH = '''// canonicalAttributeType maps the alias S of stateOrProvince to ST.
+func canonicalAttributeType(attrType string) string {
+	switch attrType {
+	case "S":
+		attrType = "ST"
+	}
+	return attrType
+}
+
+'''
+# collector
+_COLLECT_CALL = '''	attrKeyValue, err := collectRDNAttributes(name, dn)
+	if err != nil {
+		return nil, err
+	}
+'''
+_COLLECT_FN = '''// collectRDNAttributes gathers the attributes of the single-valued RDNs of dn.
+func collectRDNAttributes(name string, dn *ldapv3.DN) (map[string]string, error) {
+	attrKeyValue := make(map[string]string, len(dn.RDNs))
+''' + _RDNLOOP + '''	return attrKeyValue, nil
+}
+
+'''
+# per RDN
+_PERRDN_LOOP = '''	for _, rdn := range dn.RDNs {
+		if err := addRDN(attrKeyValue, name, rdn); err != nil {
+			return nil, err
+		}
+	}
+'''
+_PERRDN_FN = '''// addRDN stores the attribute of a single-valued RDN.
+func addRDN(attrKeyValue map[string]string, name string, rdn *ldapv3.RelativeDN) error {
+	// multi-valued RDNs are not supported (TODO: add spec reference here)
+	if len(rdn.Attributes) > 1 {
+		return ''' + _MULTIERR + '''
+	}
+	for _, attribute := range rdn.Attributes {
+''' + _ATTRBODY.replace('\t\t\t', '\t\t').replace('return nil, fmt', 'return fmt') + '''	}
+	return nil
+}
+
+'''
+# per attribute
+_PERATTR_BODY = '''			if err := addAttribute(attrKeyValue, name, attribute); err != nil {
+				return nil, err
+			}
+'''
+_PERATTR_FN = '''// addAttribute stores one attribute under its canonical type.
+func addAttribute(attrKeyValue map[string]string, name string, attribute *ldapv3.AttributeTypeAndValue) error {
+''' + _ATTRBODY.replace('\t\t\t', '\t').replace('return nil, fmt', 'return fmt') + '''	return nil
+}
+
+'''
+_PERATTR2_BODY = '''			if err := setAttribute(attrKeyValue, name, attribute.Type, attribute.Value); err != nil {
+				return nil, err
+			}
+'''
+_PERATTR2_FN = '''// setAttribute stores one attribute value under its canonical type.
+func setAttribute(attrs map[string]string, name, attrType, value string) error {
+	if attrType == "S" {
+		attrType = "ST"
+	}
+	if attrs[attrType] != "" {
+		return ''' + _DUPERR.replace('attribute.Type)', 'attrType)') + '''
+	}
+	attrs[attrType] = value
+	return nil
+}
+
+'''
+_MKMAP = '\tattrKeyValue := make(map[string]string)\n'
+
+def _cut(fn, body_old, body_new, *subs):
+    new = body_new
+    for a, b in subs:
+        new = _sub(new, a, b)
+    return [(P, _DOC, fn + _DOC), (P, body_old, new)]
+
+VARIANTS += [
+ # -- alias function
+ dict(name='benign-alias-function', expect='silent', edits=_cut(_CANON_FN, _ATTRBODY, _CANON_BODY)),
+ dict(name='benign-alias-function-switch', expect='silent', edits=_cut(_CANON_FN_SWITCH, _ATTRBODY, _CANON_BODY)),
+ dict(name='alias-function-identity', expect='flagged(parser/alias-S-ST)',
+      edits=_cut(_sub(_CANON_FN, '\tif attrType == "S" {\n\t\treturn "ST"\n\t}\n', ''), _ATTRBODY, _CANON_BODY)),
+ dict(name='alias-function-wrong-case', expect='flagged(parser/alias-S-ST)',
+      edits=_cut(_sub(_CANON_FN, 'if attrType == "S" {', 'if attrType == "s" {'), _ATTRBODY, _CANON_BODY)),
+ dict(name='alias-function-inverted', expect='flagged(parser/alias-S-ST)',
+      edits=_cut(_sub(_CANON_FN, 'if attrType == "S" {', 'if attrType != "S" {'), _ATTRBODY, _CANON_BODY)),
+ dict(name='alias-function-folds-case', expect='flagged(parser/)',
+      edits=_cut(_sub(_CANON_FN, '\treturn attrType\n', '\treturn strings.ToUpper(attrType)\n'), _ATTRBODY, _CANON_BODY)),
+ dict(name='alias-function-on-value', expect='flagged(parser/stores-type-value)',
+      edits=_cut(_CANON_FN, _ATTRBODY, _CANON_BODY, ('canonicalAttributeType(attribute.Type)', 'canonicalAttributeType(attribute.Value)'))),
+ # -- collector that makes and returns the map
+ dict(name='benign-collector-helper', expect='silent',
+      edits=[(P, _MKMAP, ''), (P, _RDNLOOP, _COLLECT_CALL), (P, _DOC, _COLLECT_FN + _DOC)]),
+ dict(name='collector-error-ignored', expect='flagged(parser/)',
+      edits=[(P, _DOC, _sub(_COLLECT_FN, '\t\t\t} else {\n\t\t\t\treturn nil, ' + _DUPERR, '\t\t\t} else {\n\t\t\t\treturn attrKeyValue, ' + _DUPERR) + _DOC), (P, _MKMAP, ''),
+             (P, _RDNLOOP, '\tattrKeyValue, _ := collectRDNAttributes(name, dn)\n')]),
+ dict(name='collector-duplicate-overwrites', expect='flagged(parser/duplicate)',
+      edits=[(P, _DOC, _sub(_COLLECT_FN, '\t\t\tif attrKeyValue[attribute.Type] == "" {\n\t\t\t\tattrKeyValue[attribute.Type] = attribute.Value\n\t\t\t} else {\n\t\t\t\treturn nil, ' + _DUPERR + '\n\t\t\t}\n',
+                                '\t\t\tattrKeyValue[attribute.Type] = attribute.Value\n') + _DOC), (P, _MKMAP, ''), (P, _RDNLOOP, _COLLECT_CALL)]),
+ dict(name='collector-stops-at-first-rdn', expect='flagged(parser/every-attribute-read)',
+      edits=[(P, _DOC, _sub(_COLLECT_FN, '\t\t\t} else {\n\t\t\t\treturn nil, ' + _DUPERR + '\n\t\t\t}\n\t\t}\n', '\t\t\t} else {\n\t\t\t\treturn nil, ' + _DUPERR + '\n\t\t\t}\n\t\t}\n\t\tif len(attrKeyValue) >= 3 {\n\t\t\tbreak\n\t\t}\n') + _DOC),
+             (P, _MKMAP, ''), (P, _RDNLOOP, _COLLECT_CALL)]),
+ dict(name='collector-shared-map', expect='flagged(parser/result-is-fresh-map)',
+      edits=[(P, _DOC, 'var lastAttributes = map[string]string{}\n\n' + _sub(_COLLECT_FN, '\tattrKeyValue := make(map[string]string, len(dn.RDNs))\n', '\tattrKeyValue := lastAttributes\n') + _DOC),
+             (P, _MKMAP, ''), (P, _RDNLOOP, _COLLECT_CALL)]),
+ # -- helper per RDN
+ dict(name='benign-per-rdn-helper', expect='silent', edits=[(P, _DOC, _PERRDN_FN + _DOC), (P, _RDNLOOP, _PERRDN_LOOP)]),
+ dict(name='per-rdn-helper-error-ignored', expect='flagged(parser/)',
+      edits=[(P, _DOC, _PERRDN_FN + _DOC), (P, _RDNLOOP, '\tfor _, rdn := range dn.RDNs {\n\t\t_ = addRDN(attrKeyValue, name, rdn)\n\t}\n')]),
+ dict(name='per-rdn-helper-error-skips-rdn', expect='flagged(parser/)',
+      edits=[(P, _DOC, _PERRDN_FN + _DOC), (P, _RDNLOOP, _sub(_PERRDN_LOOP, '\t\t\treturn nil, err\n', '\t\t\tcontinue\n'))]),
+ dict(name='per-rdn-helper-multi-valued-allowed', expect='flagged(parser/multi-valued-rdn)',
+      edits=[(P, _DOC, _sub(_PERRDN_FN, 'if len(rdn.Attributes) > 1 {', 'if len(rdn.Attributes) > 2 {') + _DOC), (P, _RDNLOOP, _PERRDN_LOOP)]),
+ dict(name='per-rdn-helper-first-attribute-only', expect='flagged(parser/)',
+      edits=[(P, _DOC, _sub(_PERRDN_FN, '\t}\n\treturn nil\n}', '\t\treturn nil\n\t}\n\treturn nil\n}') + _DOC), (P, _RDNLOOP, _PERRDN_LOOP)]),
+ # -- helper per attribute
+ dict(name='benign-per-attribute-helper', expect='silent', edits=_cut(_PERATTR_FN, _ATTRBODY, _PERATTR_BODY)),
+ dict(name='per-attribute-helper-error-continues', expect='flagged(parser/)',
+      edits=_cut(_PERATTR_FN, _ATTRBODY, _PERATTR_BODY, ('\t\t\t\treturn nil, err\n', '\t\t\t\tcontinue\n'))),
+ dict(name='per-attribute-helper-alias-dropped', expect='flagged(parser/alias-S-ST)',
+      edits=_cut(_sub(_PERATTR_FN, '\tif attribute.Type == "S" {\n\t\tattribute.Type = "ST"\n\t}\n', ''), _ATTRBODY, _PERATTR_BODY)),
+ dict(name='per-attribute-helper-duplicate-returns-nil', expect='flagged(parser/duplicate)',
+      edits=_cut(_sub(_PERATTR_FN, '\t\treturn ' + _DUPERR, '\t\treturn nil'), _ATTRBODY, _PERATTR_BODY)),
+ dict(name='benign-per-attribute-helper-strings', expect='silent', edits=_cut(_PERATTR2_FN, _ATTRBODY, _PERATTR2_BODY)),
+ dict(name='per-attribute-helper-strings-swapped', expect='flagged(parser/stores-type-value)',
+      edits=_cut(_PERATTR2_FN, _ATTRBODY, _PERATTR2_BODY, ('attribute.Type, attribute.Value)', 'attribute.Value, attribute.Type)'))),
+ dict(name='per-attribute-helper-strings-other-map', expect='flagged(parser/)',
+      edits=_cut(_PERATTR2_FN, _ATTRBODY, _PERATTR2_BODY, ('setAttribute(attrKeyValue, name,', 'setAttribute(map[string]string{}, name,'))),
+ dict(name='per-attribute-helper-strings-no-alias', expect='flagged(parser/alias-S-ST)',
+      edits=_cut(_sub(_PERATTR2_FN, '\tif attrType == "S" {\n\t\tattrType = "ST"\n\t}\n', ''), _ATTRBODY, _PERATTR2_BODY)),
+ # -- the store that precedes the in-place rewrite
+ dict(name='alias-after-store', file=P, expect='flagged(parser/)',
+      find=_ATTRBODY, replace='''			if attrKeyValue[attribute.Type] == "" {
+				attrKeyValue[attribute.Type] = attribute.Value
+			} else {
+				return nil, ''' + _DUPERR + '''
+			}
+			if attribute.Type == "S" {
+				attribute.Type = "ST"
+			}
+'''),
+ # -- a second store into the result map outside the attribute loop
+ dict(name='second-store-outside-loop', file=P, expect='flagged(parser/)',
+      find='\t// Verify mandatory fields are present\n', replace='\tif attrKeyValue["O"] == "" {\n\t\tattrKeyValue["O"] = attrKeyValue["OU"]\n\t}\n\t// Verify mandatory fields are present\n'),
+]
